@@ -296,21 +296,17 @@ func (rb *RoundRobinBackend) GetAllBackend() map[string]Backend {
 }
 
 func (rb *RoundRobinBackend) Send(msg *Message) error {
-	index, err := rb.getNextBackendIndex()
-	if err != nil {
-		zap.L().Error("Fail to send message", zap.String("error", err.Error()))
+	// choose the backend and send under one lock: a concurrent RemoveBackend closes the
+	// backend it removes, so it must not run between the choice and the send
+	rb.Lock()
+	defer rb.Unlock()
+	n := len(rb.backends)
+	if n <= 0 {
+		zap.L().Error("Fail to send message", zap.String("error", "no backend available"))
 		return errors.New("fail to get next backend")
 	}
-
-	n := rb.getBackendCount()
-	for ; n > 0; n-- {
-		backend, err := rb.getBackend(index)
-		index++
-		if err == nil {
-			return backend.Send(msg)
-		}
-	}
-	return errors.New("fail to send msg to all the backend")
+	rb.index = (rb.index + 1) % n
+	return rb.backends[rb.index].Send(msg)
 }
 
 func (rb *RoundRobinBackend) GetAddress() string {
